@@ -304,3 +304,36 @@ Proof.
   split; [reflexivity|]. split; [reflexivity|]. split; [reflexivity|]. split; [reflexivity|].
   split; [reflexivity|]. intros H. congruence.
 Qed.
+
+(* ---- expected peer, whichever layer enforces it ---- *)
+Theorem dial_expected_ok k x a id :
+  x <> 0 -> dial_expected k x a = Ok id ->
+  id = x /\ a_proves_key a = true /\
+  exists c e key, a_raw a = [RawCert c] /\ id = id_of key /\
+    find_key_ext (c_exts c) = Some e /\
+    e_value e = SignedKey (PkOf key) (SigBy key (binding_msg (c_key c))).
+Proof.
+  intros Hx. destruct k; cbn [dial_expected].
+  - intros H. apply handshake_ok in H as (Hk & c & e & key & Hr & Hid & _ & Hf & He & [H0|H0] & _);
+      [contradiction|].
+    split; [exact H0|]. split; [exact Hk|]. exists c, e, key. auto.
+  - destruct (handshake 0 a) as [id'| |] eqn:E; cbn [obind]; try discriminate.
+    destruct (Z.eqb_spec x 0); [contradiction|]. cbn [negb andb].
+    destruct (Z.eqb_spec id' x) as [Hi|Hi]; cbn [negb]; [|discriminate].
+    intros H. injection H as <-.
+    apply handshake_ok in E as (Hk & c & e & key & Hr & Hid & _ & Hf & He & _).
+    split; [exact Hi|]. split; [exact Hk|]. exists c, e, key. auto.
+Qed.
+
+(* the two layers refuse exactly the same dials *)
+Theorem enforcement_layers_agree x a :
+  is_ok (dial_expected AtTls x a) = is_ok (dial_expected PostCheck x a).
+Proof.
+  cbn [dial_expected]. unfold handshake. destruct (a_proves_key a); cbn [negb]; [|reflexivity].
+  unfold verify_peer. destruct (parse_chain (a_raw a)) as [chain|]; [|reflexivity].
+  unfold link_remote_peer.
+  destruct (pubkey_from_chain chain) as [k| |]; cbn [obind]; try reflexivity.
+  rewrite Z.eqb_refl. cbn [negb andb obind].
+  destruct (Z.eqb_spec x 0) as [->|Hx]; cbn [negb andb obind]; [reflexivity|].
+  destruct (Z.eqb (id_of k) x); reflexivity.
+Qed.
